@@ -460,6 +460,26 @@ func (s *sys) applyVote(args []string) (string, bool) {
 		allInvalid = true
 	case "badpkh":
 		pkh = "some-other-validator-set"
+	case "oldset":
+		// A vote made out against the PREVIOUS height's validator set (which the node's validator store holds):
+		// that set's key hash, key ids by its order, signed by its members. Not a vote of this height's set wherever
+		// the key at an index differs.
+		if h <= initialH {
+			return "n/a:no-previous-set", false
+		}
+		old := w.VS(h - 1)
+		differs := false
+		for i, idx := range idxs {
+			if !old.Validators[idx].PubKey.Equal(w.VS(h).Validators[idx].PubKey) {
+				differs = true
+			}
+			sigs[i].Sig = w.sign(h-1, idx, w.voteContent(kind, h, r, target))
+		}
+		if !differs {
+			return "n/a:same-keys-at-these-indices", false
+		}
+		pkh = string(old.PubKeyHash)
+		allInvalid = true
 	case "mix":
 		// The valid signature(s) plus a corrupted one from the Byzantine validator.
 		bad := w.voteSig(kind, h, r, target, byzIdx)
